@@ -167,17 +167,19 @@ func oidString(b []byte) (string, bool) {
 		return "", false
 	}
 	var sb strings.Builder
-	v := new(big.Int)
-	first, start := true, true
-	for _, c := range b {
-		if start && c == 0x80 {
+	first := true
+	begin := 0 // index of the first octet of the current sub-identifier
+	for i, c := range b {
+		if i == begin && c == 0x80 {
 			return "", false
 		}
-		start = false
-		v.Lsh(v, 7).Or(v, big.NewInt(int64(c&0x7f)))
 		if c&0x80 != 0 {
 			continue
 		}
+		// The sub-identifier is converted in one step. Shifting an accumulator by seven
+		// bits per octet copies the whole value once per octet: quadratic time and
+		// allocation in the length of an arc, which nothing limits.
+		v := base128(b[begin : i+1])
 		if first {
 			// the first sub-identifier packs the first two arcs as 40*X + Y
 			switch {
@@ -195,8 +197,25 @@ func oidString(b []byte) (string, bool) {
 			sb.WriteByte('.')
 		}
 		sb.WriteString(v.String())
-		v.SetInt64(0)
-		start = true
+		begin = i + 1
 	}
 	return sb.String(), true
+}
+
+// base128 returns the value of one sub-identifier: big-endian digits of seven bits, the
+// continuation bit of every octet ignored.
+func base128(digits []byte) *big.Int {
+	buf := make([]byte, (len(digits)*7+7)/8)
+	bit := 0 // bits written so far, counted from the least significant end
+	for i := len(digits) - 1; i >= 0; i-- {
+		d := uint(digits[i] & 0x7f)
+		pos := len(buf) - 1 - bit/8
+		sh := uint(bit % 8)
+		buf[pos] |= byte(d << sh)
+		if sh > 1 && pos > 0 {
+			buf[pos-1] |= byte(d >> (8 - sh))
+		}
+		bit += 7
+	}
+	return new(big.Int).SetBytes(buf)
 }
